@@ -425,6 +425,77 @@ proof fn lemma_default_constants()
     ensures DEFAULT_RC == 7, DEFAULT_RM == 16,
 {
 }
+
+// ---------------------------------------------------------------- RTT estimator (rtt.rs, RFC 6298)
+impl Duration {
+    #[verifier::external_body]
+    pub fn abs_diff(self, other: Duration) -> (r: Duration)
+        ensures r.ns@ == (if self.ns@ >= other.ns@ { self.ns@ - other.ns@ } else { other.ns@ - self.ns@ }),
+    { unimplemented!() }
+}
+pub mod cmp {
+    use super::*;
+    #[verifier::external_body]
+    pub fn max(a: Duration, b: Duration) -> (r: Duration)
+        ensures r == (if b.ns@ >= a.ns@ { b } else { a }),
+    { unimplemented!() }
+}
+//@item! stun_agent :: mod rtt > const K
+//@item! stun_agent :: mod rtt > const ALPHA
+//@item! stun_agent :: mod rtt > const BETA
+//@item! stun_agent :: mod rtt > struct RttCalcuator
+impl Clone for RttCalcuator { fn clone(&self) -> (r: Self) ensures r == *self { *self } }
+impl Copy for RttCalcuator {}
+// RFC 6298 (2.2)/(2.3) with the multiplications by alpha, beta, K left as the uninterpreted single-precision
+// scaling `dur_mul_f32`; what is pinned: first-sample rule, RTTVAR before SRTT and from the *old* SRTT,
+// which factor scales which term, max with the clock granularity, no rounding up to a second.
+pub open spec fn rfc6298_first(r: int, g: int) -> (int, int, int) {   // (srtt, rttvar, rto)
+    (r, r / 2, r + (if (r / 2) * 4 >= g { (r / 2) * 4 } else { g }))
+}
+impl RttCalcuator {
+//@item stun_agent :: mod rtt > impl RttCalcuator > fn new
+//@tags C15
+//@spec
+    ensures r.rto == rto, r.configured_rto == rto, r.granularity == granularity, r.srtt.ns@ == 0, r.rttvar.ns@ == 0,
+//@end
+//@item stun_agent :: mod rtt > impl RttCalcuator > fn reset
+//@tags C15
+//@spec
+    ensures final(self).rto == old(self).configured_rto, final(self).configured_rto == old(self).configured_rto,
+        final(self).granularity == old(self).granularity, final(self).srtt.ns@ == 0, final(self).rttvar.ns@ == 0,
+//@end
+//@item stun_agent :: mod rtt > impl RttCalcuator > fn rto
+//@tags C15
+//@spec
+    ensures r == self.rto,
+//@end
+//@item stun_agent :: mod rtt > impl RttCalcuator > fn update
+//@tags C15
+//@rules R9
+//@spec
+    ensures
+        final(self).granularity == old(self).granularity, final(self).configured_rto == old(self).configured_rto,
+        old(self).srtt.ns@ == 0 ==> {
+            let f = rfc6298_first(r.ns@, old(self).granularity.ns@);
+            final(self).srtt.ns@ == f.0 && final(self).rttvar.ns@ == f.1 && final(self).rto.ns@ == f.2
+        },
+        old(self).srtt.ns@ != 0 ==> {
+            let var = dur_mul_f32(old(self).rttvar, vxs_f32_1_0_sub_BETA()).ns@
+                + dur_mul_f32(dur(if old(self).srtt.ns@ >= r.ns@ { old(self).srtt.ns@ - r.ns@ } else { r.ns@ - old(self).srtt.ns@ }), vxs_f32_BETA()).ns@;
+            let srtt = dur_mul_f32(old(self).srtt, vxs_f32_1_0_sub_ALPHA()).ns@ + dur_mul_f32(r, vxs_f32_ALPHA()).ns@;
+            let kvar = dur_mul_f32(dur(var), vxs_f32_K_as_f32());
+            &&& final(self).rttvar.ns@ == var
+            &&& final(self).srtt.ns@ == srtt
+            &&& final(self).rto.ns@ == srtt + (if kvar.ns@ >= old(self).granularity.ns@ { kvar.ns@ } else { old(self).granularity.ns@ })
+        },
+//@end
+}
+// the constants the symbolic factors stand for (checked on the literal text of rtt.rs)
+// props: C15
+proof fn lemma_rtt_constants()
+    ensures ALPHA == 0.125f32, BETA == 0.25f32, K == 4,
+{
+}
 proof fn vx_sentinel() ensures false {}
 } // verus!
 fn main() {}
